@@ -923,5 +923,66 @@ def rule_r8(ctx) -> RuleResult:
     return rr
 
 
+def rule_r9(ctx) -> RuleResult:
+    """`_bind(fn, ctx, ...)` exists so that the bound context is reachable from Lua through nothing but a call.  lupa hands a
+    Python exception raised under a Lua `pcall` to the Lua code as an object; its `args` pass the attribute filter and tuples
+    are indexed without any filter.  So inside `_bind` the bound values (and anything built from them) may be used in exactly
+    one way: as arguments of the call to the wrapped function -- not as an argument of an exception, not stored, not returned
+    (seed C06-10A: `raise TypeError(msg, call_args)` gives a module `err.args[1][0]`, the Wtp object)."""
+    rr = RuleResult("C06.R9", "the values bound by _bind are used only as arguments of the wrapped call", min_instances=1)
+    m = ctx.index.mod("luaexec")
+    if "_bind" not in m.funcs:
+        raise AnalysisError("luaexec._bind vanished (the closure factory that hides the bound context)")
+    fn = m.funcs["_bind"]
+    if not fn.args.args or fn.args.vararg is None:
+        raise AnalysisError("luaexec._bind: signature (fn, *bound) not recognised")
+    callee, bound = fn.args.args[0].arg, fn.args.vararg.arg
+    tainted = {bound}
+    changed = True
+    while changed:
+        changed = False
+        for a in ast.walk(fn):
+            if isinstance(a, ast.Assign) and len(a.targets) == 1 and isinstance(a.targets[0], ast.Name) and a.targets[0].id not in tainted \
+                    and any(isinstance(x, ast.Name) and x.id in tainted for x in ast.walk(a.value)):
+                tainted.add(a.targets[0].id)
+                changed = True
+    parents = {c: p_ for p_ in ast.walk(fn) for c in ast.iter_child_nodes(p_)}
+    n_ok = 0
+    for x in ast.walk(fn):
+        if not (isinstance(x, ast.Name) and x.id in tainted and isinstance(x.ctx, ast.Load)):
+            continue
+        # climb to the statement; allowed: inside the argument list of a call to the wrapped function, or the value of the
+        # assignment that defines another tainted name
+        n, ok = x, False
+        while n in parents:
+            par = parents[n]
+            if isinstance(par, ast.Call) and isinstance(par.func, ast.Name) and par.func.id == callee and n is not par.func:
+                ok = True
+                break
+            if isinstance(par, ast.Assign) and len(par.targets) == 1 and isinstance(par.targets[0], ast.Name) and par.targets[0].id in tainted and n is par.value:
+                ok = True
+                break
+            if isinstance(par, ast.stmt):
+                break
+            if isinstance(par, ast.Call) and n is not par.func and not (isinstance(par.func, ast.Name) and par.func.id in ("tuple", "list")):
+                break
+            n = par
+        if ok:
+            n_ok += 1
+        else:
+            st = x
+            while st in parents and not isinstance(st, ast.stmt):
+                st = parents[st]
+            rr.bad(Finding("C06.R9", LX, "luaexec._bind", unparse(st)[:90],
+                           "`{}` holds the objects bound for the Lua-visible closure (the Wtp context among them) and is used outside the call to "
+                           "the wrapped function: an exception carrying it reaches Lua as the error value of pcall, `err.args[..][0]` is the "
+                           "context, and `ctx.add_page` / `ctx.db_conn` are callable from module code".format(x.id), x.lineno))
+    if n_ok == 0 and not rr.findings:
+        raise AnalysisError("luaexec._bind: the call that passes the bound values to the wrapped function was not recognised")
+    if not rr.findings:
+        rr.ok("luaexec._bind", "{} use(s) of the bound values, all as arguments of `{}(...)`".format(n_ok, callee))
+    return rr
+
+
 def run(ctx) -> list:
-    return [rule_r1(ctx), rule_r2(ctx), rule_r3(ctx), rule_r4(ctx), rule_r5(ctx), rule_r6(ctx), rule_r7(ctx), rule_r8(ctx)]
+    return [rule_r1(ctx), rule_r2(ctx), rule_r3(ctx), rule_r4(ctx), rule_r5(ctx), rule_r6(ctx), rule_r7(ctx), rule_r8(ctx), rule_r9(ctx)]
